@@ -375,6 +375,10 @@ class Spec:
                         self.deliver(e["name"], it, e["parent"] or it["parent"], e["props"], e["events"], "pushed", born=e["born"])
                         self.expected[-1]["closed"] = e["closed"]
                         self.expected[-1]["groups"] = self.local_groups(e)
+        elif op == "unwindLocals":
+            # a caught panic unwinds through the local spans above the innermost scope: they end as by `close`
+            while th["guards"] and th["guards"][-1][0] == "local":
+                self.close_guard(t, th["guards"].pop())
         elif op == "unwind":
             while th["guards"]:
                 g = th["guards"].pop()
@@ -717,6 +721,9 @@ class Gen:
     def op_unwind(self, t):
         self.emit(t, "unwind")
 
+    def op_unwind_locals(self, t):
+        self.emit(t, "unwindLocals")
+
     def op_l_with_props(self, t):
         self.emit(t, "lWithProps %s" % self.closure())
 
@@ -987,6 +994,8 @@ class Gen:
                     choices.append(("collect", 4))
                 if self.k.get("unwinds") and not self.calls.get(t):
                     choices.append(("unwind", 2))
+                    if top[0] == "local" and top[2] != "stale":
+                        choices.append(("unwindLocals", 3))
                 u = self.under(t)
                 if u is not None:
                     choices.append(("closeUnder", 5))
@@ -1080,6 +1089,8 @@ class Gen:
             elif c == "closeUnder":
                 self.op_close_under(t)
                 self.probe(t)
+            elif c == "unwindLocals":
+                self.op_unwind_locals(t)
             elif c == "unwind":
                 self.op_unwind(t)
                 self.probe(t)
@@ -1204,6 +1215,8 @@ class Gen:
                     choices.append(("collect", 4))
                 if self.k.get("unwinds") and not self.calls.get(t):
                     choices.append(("unwind", 2))
+                    if top[0] == "local" and top[2] != "stale":
+                        choices.append(("unwindLocals", 3))
                 u = self.under(t)
                 if u is not None:
                     choices.append(("closeUnder", 5))
@@ -1248,6 +1261,8 @@ class Gen:
                 self.op_close(t)
             elif c == "collect":
                 self.op_collect(t)
+            elif c == "unwindLocals":
+                self.op_unwind_locals(t)
             elif c == "unwind":
                 self.op_unwind(t)
             elif c == "closeUnder":
